@@ -167,13 +167,15 @@ void Logging::log( const std::string& log_name, const detail::LogMsg& msg)
 ///    The name of the attribute.
 /// @param[in]  value
 ///    The value for the attribute.
+/// @return
+///    An identification of the added attribute, can be used to remove exactly
+///    this attribute again with removeAttributeById().
 /// @since
 ///    1.15.0, 10.10.2018
-void Logging::addAttribute( const std::string& name, const std::string& value)
+size_t Logging::addAttribute( const std::string& name, const std::string& value)
 {
 
-   mAttributes.addAttribute( name, value);
-
+   return mAttributes.addAttribute( name, value);
 } // Logging::addAttribute
 
 
@@ -190,6 +192,20 @@ void Logging::removeAttribute( const std::string& attr_name)
    mAttributes.removeAttribute( attr_name);
 
 } // Logging::removeAttribute
+
+
+
+/// Removes exactly the attribute for which addAttribute() returned the given
+/// identification. Does nothing if this attribute does not exist anymore.
+///
+/// @param[in]  attr_id  The identification of the attribute to remove.
+/// @since  01.10.2026
+void Logging::removeAttributeById( size_t attr_id)
+{
+
+   mAttributes.removeAttributeById( attr_id);
+
+} // Logging::removeAttributeById
 
 
 
